@@ -774,28 +774,144 @@ func c11CopyPart(root any, copier func(any) any) (res c11CopyResult) {
 // Walk part
 // ---------------------------------------------------------------------------------------------------
 
+// c11Script is one scripted visitor: in WHICH callbacks (the schedule `sel`) it performs WHICH action.
+//
+//	<mode>:<sel>:<act>     mode st|se|pg, act n|c|d|e
+//	sel ::= <k>[+<k>…]     the listed callbacks (1-based, Enter/Visit/Exit counted together; 0 = never), e.g. 7+8 =
+//	                       Consume in Enter(X) and again in the Exit(X) that follows
+//	      | *<kinds>       every callback of the listed kinds (E, V, X), e.g. *X = every Exit, *EX
+//	      | #<m>.<r><kinds> every callback of the listed kinds whose node's %T name has byte sum ≡ r (mod m):
+//	                       a label-determined set of nodes, acted on in Enter AND Exit (AND Visit)
 type c11Script struct {
-	mode string // st | se
-	k    int
-	act  byte // n c d e
+	mode  string
+	sel   string
+	ks    []int
+	kinds string // subset of "EVX" for the * and # forms
+	m, r  int    // # form: m > 0
+	act   byte   // n c d e
 }
 
-func (s c11Script) String() string { return fmt.Sprintf("%s:%d:%c", s.mode, s.k, s.act) }
+func (s c11Script) String() string { return fmt.Sprintf("%s:%s:%c", s.mode, s.sel, s.act) }
 
-func c11ParseScripts(tok string) ([]c11Script, bool) {
+func c11NameHash(name string) int {
+	h := 0
+	for i := 0; i < len(name); i++ {
+		h += int(name[i])
+	}
+	return h
+}
+
+// fires: does the schedule select the n-th callback, of the given kind, on a node of the given %T name?
+func (s c11Script) fires(n int, kind byte, name string) bool {
+	if s.kinds == "" {
+		for _, k := range s.ks {
+			if k == n {
+				return true
+			}
+		}
+		return false
+	}
+	if strings.IndexByte(s.kinds, kind) < 0 {
+		return false
+	}
+	return s.m == 0 || c11NameHash(name)%s.m == s.r
+}
+
+func c11MkScript(mode, sel string, act byte) (c11Script, bool) {
+	sc := c11Script{mode: mode, sel: sel, act: act}
+	kindsOK := func(k string) bool {
+		if k == "" {
+			return false
+		}
+		for i := 0; i < len(k); i++ {
+			if strings.IndexByte("EVX", k[i]) < 0 {
+				return false
+			}
+		}
+		return true
+	}
+	switch {
+	case strings.HasPrefix(sel, "*"):
+		sc.kinds = sel[1:]
+		return sc, kindsOK(sc.kinds)
+	case strings.HasPrefix(sel, "#"):
+		i := strings.IndexByte(sel, '.')
+		if i < 0 {
+			return sc, false
+		}
+		j := i + 1
+		for j < len(sel) && sel[j] >= '0' && sel[j] <= '9' {
+			j++
+		}
+		m, err1 := strconv.Atoi(sel[1:i])
+		r, err2 := strconv.Atoi(sel[i+1 : j])
+		sc.m, sc.r, sc.kinds = m, r, sel[j:]
+		return sc, err1 == nil && err2 == nil && m > 0 && r >= 0 && r < m && kindsOK(sc.kinds)
+	default:
+		for _, f := range strings.Split(sel, "+") {
+			k, err := strconv.Atoi(f)
+			if err != nil || k < 0 {
+				return sc, false
+			}
+			sc.ks = append(sc.ks, k)
+		}
+		return sc, true
+	}
+}
+
+func c11ParseScriptsFor(tok string, modes ...string) ([]c11Script, bool) {
 	var out []c11Script
 	for _, part := range strings.Split(tok, ",") {
 		f := strings.Split(part, ":")
-		if len(f) != 3 || (f[0] != "st" && f[0] != "se") || len(f[2]) != 1 || !strings.Contains("ncde", f[2]) {
+		if len(f) != 3 || len(f[2]) != 1 || !strings.Contains("ncde", f[2]) {
 			return nil, false
 		}
-		k, err := strconv.Atoi(f[1])
-		if err != nil || k < 0 {
+		okMode := false
+		for _, m := range modes {
+			okMode = okMode || m == f[0]
+		}
+		sc, ok := c11MkScript(f[0], f[1], f[2][0])
+		if !ok || !okMode {
 			return nil, false
 		}
-		out = append(out, c11Script{f[0], k, f[2][0]})
+		out = append(out, sc)
 	}
 	return out, true
+}
+
+func c11ParseScripts(tok string) ([]c11Script, bool) { return c11ParseScriptsFor(tok, "st", "se") }
+
+func c11NeverScript(mode string) c11Script { sc, _ := c11MkScript(mode, "0", 'n'); return sc }
+
+// c11ScheduleScripts: the schedules added to every case for one walker with n callbacks — Consume in Exit, in
+// Visit, in Enter+Exit(+Visit) of label-determined node sets, and in Enter(X)+Exit(X) of random positions.
+func c11ScheduleScripts(rng *Rng, mode string, n int, pairs int, all bool) []c11Script {
+	var out []c11Script
+	add := func(sel string, act byte) {
+		if sc, ok := c11MkScript(mode, sel, act); ok {
+			out = append(out, sc)
+		}
+	}
+	if n == 0 {
+		return nil
+	}
+	add("*X", 'c')
+	add("*V", 'c')
+	add("#2.0EX", 'c')
+	add("#2.1EX", 'c')
+	add(fmt.Sprintf("#3.%dEVX", rng.Intn(3)), 'c')
+	add(fmt.Sprintf("#5.%dVX", rng.Intn(5)), 'c')
+	if all {
+		for k := 1; k < n; k++ {
+			add(fmt.Sprintf("%d+%d", k, k+1), 'c')
+		}
+	} else {
+		for i := 0; i < pairs && n > 1; i++ {
+			k := 1 + rng.Intn(n-1)
+			add(fmt.Sprintf("%d+%d", k, k+1), 'c')
+		}
+	}
+	return out
 }
 
 // c11Visitor records every callback and performs the scripted action inside the k-th one.
@@ -813,7 +929,7 @@ func (s *c11Visitor) event(kind string, node cypher.SyntaxNode) {
 	if s.record {
 		s.log = append(s.log, kind+":"+fmt.Sprintf("%T", node))
 	}
-	if s.n == s.script.k {
+	if s.script.fires(s.n, kind[0], fmt.Sprintf("%T", node)) {
 		s.fired = true
 		switch s.script.act {
 		case 'c':
@@ -1099,20 +1215,26 @@ func (g *c11Generator) fill(v reflect.Value, depth int) {
 
 // c11CountCallbacks runs the real walker with a never-acting visitor and returns the number of callbacks.
 func c11CountCallbacks(root any, mode string) int {
-	_, vis := c11RunWalk(root, c11Script{mode, 0, 'n'}, false)
+	_, vis := c11RunWalk(root, c11NeverScript(mode), false)
 	return vis.n
 }
 
 // c11PickScripts chooses the scripts of one case knowing the callback counts of both walkers.
 func c11PickScripts(rng *Rng, root any, extra int, thorough bool, stats *Stats) string {
-	scripts := []c11Script{{"st", 0, 'n'}, {"se", 0, 'n'}}
+	scripts := []c11Script{c11NeverScript("st"), c11NeverScript("se")}
 	counts := map[string]int{"st": c11CountCallbacks(root, "st"), "se": c11CountCallbacks(root, "se")}
 	for i := 0; i < extra; i++ {
 		mode := Pick(rng, []string{"st", "se"})
 		act := Pick(rng, []byte{'c', 'd', 'e'})
 		if n := counts[mode]; n > 0 {
-			scripts = append(scripts, c11Script{mode, 1 + rng.Intn(n), act})
+			sc, _ := c11MkScript(mode, strconv.Itoa(1+rng.Intn(n)), act)
+			scripts = append(scripts, sc)
 		}
+	}
+	// consume schedules: Consume in Exit / Visit / Enter+Exit of the same node, at every kind of node position
+	for _, mode := range []string{"st", "se"} {
+		n := counts[mode]
+		scripts = append(scripts, c11ScheduleScripts(rng, mode, n, 3, n <= 40 && (thorough || n <= 16))...)
 	}
 	if thorough {
 		exhaustive := false
@@ -1121,7 +1243,8 @@ func c11PickScripts(rng *Rng, root any, extra int, thorough bool, stats *Stats) 
 				exhaustive = true
 				for k := 1; k <= n; k++ {
 					for _, act := range []byte{'c', 'd', 'e'} {
-						scripts = append(scripts, c11Script{mode, k, act})
+						sc, _ := c11MkScript(mode, strconv.Itoa(k), act)
+						scripts = append(scripts, sc)
 					}
 				}
 			}
